@@ -29,7 +29,7 @@ def klass(o):
 tally = {}
 for m in sorted(glob.glob(os.path.join(root, 'seeded', '*', 'meta.json'))):
     m = json.load(open(m))
-    rnd = (int(m['id'].split('-')[1]) + 1) // 2
+    rnd = m.get('round') or (int(m['id'].split('-')[1]) + 1) // 2
     tally.setdefault(rnd, {}).setdefault(klass(m['outcome']), []).append(m['id'])
 cols = ['caught by the check as first built', 'caught by a sibling check', 'caught after an extension', 'not caught', 'other']
 trows = []
